@@ -15,6 +15,13 @@ Local Open Scope string_scope.
 Local Open Scope list_scope.
 Local Open Scope Z_scope.
 
+(* strings with bytes outside printable ASCII are written by the harness as byte lists *)
+Fixpoint str_of_bytes (l : list N) : string :=
+  match l with
+  | [] => EmptyString
+  | b :: r => String (ascii_of_N b) (str_of_bytes r)
+  end.
+
 Inductive res := ROk (z : Z) | RErr | RPanic.
 Definition res_of (o : option Z) : res := match o with Some z => ROk z | None => RErr end.
 Definition res_eqb (a b : res) : bool :=
